@@ -3,7 +3,7 @@
 # in N parallel shards (round robin); logs /dev/shm/regress_shard_<k>.log
 cd /verif
 n=${1:-4}
-ls seeded | grep -v README > /dev/shm/regress_all.txt
+ls seeded | grep -v "README\|REGRESSION" > /dev/shm/regress_all.txt
 k=0
 while [ $k -lt $n ]; do
   (
